@@ -15,14 +15,13 @@ def main():
     only = set(sys.argv[2:])
     tmp = tempfile.mkdtemp(prefix="vxmut_", dir="/tmp")
     dst = os.path.join(tmp, "rust", "altrios-core")
-    os.makedirs(dst)
-    shutil.copytree(os.path.join(REPO, "rust", "altrios-core", "src"), os.path.join(dst, "src"))
+    shutil.copytree(os.path.join(REPO, "rust"), os.path.join(tmp, "rust"), ignore=shutil.ignore_patterns("target"))
     results = []
     try:
         for f in faults:
             if only and f["id"] not in only:
                 continue
-            path = os.path.join(dst, "src", f["file"])
+            path = os.path.join(dst, f["file"]) if f["file"].startswith("altrios-proc-macros/") else os.path.join(dst, "src", f["file"])
             orig = open(path).read()
             if orig.count(f["old"]) < 1:
                 results.append((f["id"], "ANCHOR-LOST", ""))
